@@ -73,10 +73,9 @@ Section Serve.
 Variable C : Type.
 Variable rd : reader C.
 
-(* db.AdditionalSectionForRecords: the target is looked up under its lower-cased name (owner keys
-   are lower-cased; after 6c0d2c6), the owner of the added records stays as written in the rdata;
-   AAAA picks are appended before A picks.  bytes.ToLower is modelled on A-Z only: targets with
-   bytes above 0x7f are outside the model *)
+(* db.AdditionalSectionForRecords: the packed target is lower-cased (A-Z only, in place, after
+   5851055) before the key lookup - owner keys are lower-cased the same way by the compiler; the
+   owner of the added records stays as written in the rdata; AAAA picks are appended before A picks *)
 Fixpoint additional (recs : list item) (loc : bytes) (qclass : N) (m : msg) (c : C) : res (msg * C) :=
   match recs with
   | [] => Val (m, c)
